@@ -83,6 +83,7 @@ var (
 	imports   multiFlag // pkgpath:oldimport=newimport
 	adds      multiFlag // pkgpath=file
 	noMapSort = flag.Bool("nomapsort", false, "leave range-over-map alone")
+	noConc    = flag.Bool("noconc", false, "do not re-target concurrency constructs; only apply -import/-add (for sequential Engine-2 parts that need a substituted import or an in-package accessor)")
 )
 
 type gen struct {
@@ -241,7 +242,7 @@ func (g *gen) prepass(f *ast.File) {
 						g.errf(x.Pos(), "unsupported: %s.%s would escape the model scheduler", path, x.Sel.Name)
 					}
 					if t := replTable[path]; t != nil {
-						if nn, ok := t[x.Sel.Name]; ok {
+						if nn, ok := t[x.Sel.Name]; ok && !*noConc {
 							g.selRepl[x] = nn
 							g.pkgUses[pn]--
 						}
@@ -737,7 +738,12 @@ func main() {
 			g.goDirect = map[*ast.GoStmt]bool{}
 			g.usedMC = false
 			g.prepass(f)
-			g.rewrite(f)
+			if *noConc {
+				g.errs = nil
+				g.selRepl = map[*ast.SelectorExpr]string{}
+			} else {
+				g.rewrite(f)
+			}
 			g.fixImports(f)
 			for _, d := range f.Decls {
 				if _, ok := d.(*ast.FuncDecl); ok {
